@@ -1,12 +1,13 @@
 import ImathVerif.Model.RayBox
+import ImathVerif.Model.RayBoxOracle
 /-!
 Line-protocol driver for C14 (ray/line vs. box).  Core `Rat` only.
 
 It evaluates (a) the MODEL (`Model/RayBox.lean`, the transcription of the C++)
-and (b) the SPEC, an independent oracle written here: per axis the exact
-parameter interval of the slab, intersected over the three axes (and with
-`t ≥ 0` for the ray), from which hit/miss and the entry/exit/first-contact
-points are read off.  The oracle shares no code with the model.
+and (b) the SPEC, an independent oracle (`Model/RayBoxOracle.lean`, proved correct in
+`Props/C14.lean`): per axis the exact parameter interval of the slab, intersected
+over the three axes (and with `t ≥ 0` for the ray), from which hit/miss and the
+entry/exit/first-contact points are read off.  The oracle shares no code with the model.
 
   lattice <pairs> <ox> <oy> <oz> <sh> [<lo> <hi>]
         boxes = pairs^3 (pairs "a:b,c:d,.." = per-axis (min,max)), origins in
@@ -35,64 +36,11 @@ def sentinelE : V3 Q := ⟨1001, 1002, 1003⟩
 def sentinelX : V3 Q := ⟨2001, 2002, 2003⟩
 def sentinelI : V3 Q := ⟨3001, 3002, 3003⟩
 
-/-! ## The oracle (independent of the model) -/
+/-! ## The oracle (independent of the model)
 
-/-- A closed parameter interval with optional infinite ends; `none` = empty. -/
-structure Ival where
-  loInf : Bool
-  lo : Q
-  hiInf : Bool
-  hi : Q
-
-def Ival.all : Ival := ⟨true, 0, true, 0⟩
-
-/-- `{t | lo ≤ p + t·d ≤ hi}` for one axis. -/
-def slab (p d lo hi : Q) : Option Ival :=
-  if hi < lo then none
-  else if d == 0 then (if lo ≤ p && p ≤ hi then some Ival.all else none)
-  else
-    let a := (lo - p) / d
-    let b := (hi - p) / d
-    some ⟨false, min a b, false, max a b⟩
-
-def Ival.inter (i j : Ival) : Option Ival :=
-  let (li, l) := if i.loInf then (j.loInf, j.lo) else if j.loInf then (false, i.lo) else (false, max i.lo j.lo)
-  let (hi', h) := if i.hiInf then (j.hiInf, j.hi) else if j.hiInf then (false, i.hi) else (false, min i.hi j.hi)
-  if !li && !hi' && h < l then none else some ⟨li, l, hi', h⟩
-
-def oInter (a b : Option Ival) : Option Ival :=
-  match a, b with
-  | some i, some j => i.inter j
-  | _, _ => none
-
-/-- Parameter interval of the full line inside the box. -/
-def lineIval (r : Line3 Q) (b : Box3 Q) : Option Ival :=
-  oInter (oInter (slab r.pos.x r.dir.x b.min.x b.max.x) (slab r.pos.y r.dir.y b.min.y b.max.y))
-    (slab r.pos.z r.dir.z b.min.z b.max.z)
-
-def rayIval (r : Line3 Q) (b : Box3 Q) : Option Ival :=
-  oInter (lineIval r b) (some ⟨false, 0, true, 0⟩)
-
-def ptAt (r : Line3 Q) (t : Q) : V3 Q :=
-  ⟨r.pos.x + t * r.dir.x, r.pos.y + t * r.dir.y, r.pos.z + t * r.dir.z⟩
-
-structure SpecOut where
-  feHit : Bool
-  entry : Option (V3 Q)   -- defined when hit and the interval is bounded (direction ≠ 0)
-  exit : Option (V3 Q)
-  isHit : Bool
-  ip : Option (V3 Q)
-
-def spec (r : Line3 Q) (b : Box3 Q) : SpecOut :=
-  let l := lineIval r b
-  let y := rayIval r b
-  let (fe, en, ex) := match l with
-    | none => (false, none, none)
-    | some i => (true, if i.loInf then none else some (ptAt r i.lo), if i.hiInf then none else some (ptAt r i.hi))
-  let (ih, ip) := match y with
-    | none => (false, none)
-    | some i => (true, some (ptAt r i.lo))    -- the ray interval always has a finite lower end ≥ 0
-  ⟨fe, en, ex, ih, ip⟩
+`Ival`, `slab`, `Ival.inter`, `oInter`, `lineIval`, `rayIval`, `oracleLine`, `oracleRay`, `ptAt`, `SpecOut`, `spec`
+are the generic definitions of `Model/RayBoxOracle.lean`, executed here at `Rat`.  They are PROVED correct in
+`Props/C14.lean` (`oracleLine_iff`, `oracleRay_iff`, `spec_entry`, `spec_exit`, `spec_ip`). -/
 
 /-! ## Hashing / printing -/
 
@@ -129,7 +77,7 @@ def specHashOf (h : UInt64) (feHit : Bool) (en ex : Option (V3 Q)) (isHit : Bool
   let h := mixB h isHit
   match ip with | some v => mixV h v | none => h
 
-def specHash (h : UInt64) (s : SpecOut) : UInt64 := specHashOf h s.feHit s.entry s.exit s.isHit s.ip
+def specHash (h : UInt64) (s : SpecOut Q) : UInt64 := specHashOf h s.feHit s.entry s.exit s.isHit s.ip
 
 /-- the model's outputs restricted to what the spec determines (points only when hit; on the lattice dir ≠ 0) -/
 def modelSpecHash (h : UInt64) (m : ModelOut) : UInt64 :=
@@ -154,7 +102,7 @@ def bStr (b : Bool) : String := if b then "1" else "0"
 def modelLine (m : ModelOut) : String :=
   s!"fe={bStr m.feHit} entry={vStr m.entry} exit={vStr m.exit} is={bStr m.isHit} ip={vStr m.ip} isb={bStr m.isBool}"
 
-def specLine (s : SpecOut) : String :=
+def specLine (s : SpecOut Q) : String :=
   s!"fe={bStr s.feHit} entry={oStr s.entry} exit={oStr s.exit} is={bStr s.isHit} ip={oStr s.ip}"
 
 /-! ## Lattice -/
@@ -360,7 +308,7 @@ def grow (b : Box3 Q) (p : V3 Q) (eta : Q) : Box3 Q :=
   ⟨⟨b.min.x - mx, b.min.y - my, b.min.z - mz⟩, ⟨b.max.x + mx, b.max.y + my, b.max.z + mz⟩⟩
 
 /-- does the interval contain a parameter of magnitude ≤ T -/
-def Ival.meetsWindow (i : Ival) (T : Q) : Bool :=
+def ivalMeetsWindow (i : Ival Q) (T : Q) : Bool :=
   (i.loInf || i.lo ≤ T) && (i.hiInf || -T ≤ i.hi)
 
 /-- the guard as written, evaluated exactly (statistics and flip classification only) -/
@@ -500,10 +448,10 @@ def sweepCase (B : SweepBlock) (r : Line3 Q) (implFe implIs wrapDiff : Bool) (pc
   let gtag := if zeroD then "zero-direction" else if allTiny then "all-components-fail-guard" else if ovf then "face-minus-pos-overflows"
               else if face then "box-face-at-TMAX" else if anyFail then "other-guardpath" else "other-noguard"
   -- is some EXACT hit parameter representable (|t| ≤ TMAX)?  (not used for the overflow class)
-  let wtag (i : Option Ival) : String :=
+  let wtag (i : Option (Ival Q)) : String :=
     if gtag == "face-minus-pos-overflows" then "" else
     match i with
-    | some i => if i.meetsWindow T then ":t-le-TMAX" else ":t-gt-TMAX"
+    | some i => if ivalMeetsWindow i T then ":t-le-TMAX" else ":t-gt-TMAX"
     | none => ""
   let desc : Unit → String := fun _ =>
     s!"{B.tag} box={vStr b.min};{vStr b.max} pos={vStr r.pos} dir={vStr r.dir} implFe={bStr implFe} implIs={bStr implIs} exactLine={bStr exact.isSome} exactRay={bStr exactR.isSome}"
@@ -702,7 +650,7 @@ def ptErr (a : Array UInt64) (p : V3 Q) : Q :=
 
 /-- "on the ray to within rounding": distance of entry / exit / ip of a floating-point run from the exact
 entry / exit / first-contact point of the oracle (when both say hit) -/
-def ndResidue (o : GOut) (s : SpecOut) : Q × Nat :=
+def ndResidue (o : GOut) (s : SpecOut Q) : Q × Nat :=
   let (e1, n1) := match o.feHit, s.entry with | true, some p => (ptErr o.e p, 1) | _, _ => (0, 0)
   let (e2, n2) := match o.feHit, s.exit with | true, some p => (ptErr o.x p, 1) | _, _ => (0, 0)
   let (e3, n3) := match o.isHit, s.ip with | true, some p => (ptErr o.ip p, 1) | _, _ => (0, 0)
@@ -783,7 +731,7 @@ def Small.case (n : Small) (blk ci : Nat) : Line3 Q × Box3 Q :=
 
 /-- parameter set one block of `findEntryAndExitPoints` contributes (`feEff`): the slab if the guard as written
 passes, else everything / nothing according to whether the origin coordinate is inside the slab -/
-def feEffSet (T p d lo hi : Q) : Option Ival :=
+def feEffSet (T p d lo hi : Q) : Option (Ival Q) :=
   if codeGuard T p d lo hi then slab p d lo hi
   else if lo ≤ p && p ≤ hi then some Ival.all else none
 
@@ -798,16 +746,16 @@ def feGuardOracle (T : Q) (r : Line3 Q) (b : Box3 Q) : Bool :=
 
 /-- parameter set one block of `intersects` contributes (`isEff`): upper end the back quotient unless its guard
 fails (then none), lower end — only when the origin is before the front face — the front quotient or `T` -/
-def isEffSet (T p d lo hi : Q) : Option Ival :=
+def isEffSet (T p d lo hi : Q) : Option (Ival Q) :=
   if d > 0 then
     if p > hi then none else
-    let up : Ival := if d > 1 || hi - p < T * d then ⟨true, 0, false, (hi - p) / d⟩ else Ival.all
-    let low : Ival := if p ≤ lo then ⟨false, (if d > 1 || lo - p < T * d then (lo - p) / d else T), true, 0⟩ else Ival.all
+    let up : Ival Q := if d > 1 || hi - p < T * d then ⟨true, 0, false, (hi - p) / d⟩ else Ival.all
+    let low : Ival Q := if p ≤ lo then ⟨false, (if d > 1 || lo - p < T * d then (lo - p) / d else T), true, 0⟩ else Ival.all
     low.inter up
   else if d < 0 then
     if p < lo then none else
-    let up : Ival := if d < -1 || lo - p > T * d then ⟨true, 0, false, (lo - p) / d⟩ else Ival.all
-    let low : Ival := if p ≥ hi then ⟨false, (if d < -1 || hi - p > T * d then (hi - p) / d else T), true, 0⟩ else Ival.all
+    let up : Ival Q := if d < -1 || lo - p > T * d then ⟨true, 0, false, (lo - p) / d⟩ else Ival.all
+    let low : Ival Q := if p ≥ hi then ⟨false, (if d < -1 || hi - p > T * d then (hi - p) / d else T), true, 0⟩ else Ival.all
     low.inter up
   else if lo ≤ p && p ≤ hi then some Ival.all else none
 
@@ -980,7 +928,7 @@ def main (args : List String) : IO Unit := do
       | some v =>
         let o := if ft == "f" then runF32 v else runF64 v
         let (rr, b) := ndRat v
-        out.putStrLn s!"{ci} in={" ".intercalate (v.toList.map toString)} | M {gLine o} | S fe={bStr (lineIval rr b).isSome} is={bStr (rayIval rr b).isSome}"
+        out.putStrLn s!"{ci} in={" ".intercalate (v.toList.map toString)} | M {gLine o} | S fe={bStr (oracleLine rr b)} is={bStr (oracleRay rr b)}"
   | ["small", t, boxes, pv, dv] =>
     let n := parseSmall t boxes pv dv
     let res ← runTasksG 16 0 n.nBlocks (fun blk => n.runBlock blk)
